@@ -479,7 +479,27 @@ Definition px_param (x : sexp) : option (string * warg) :=
   end.
 Definition px_str (x : sexp) : option string := match x with A s => Some s | _ => None end.
 
-Definition px_op (x : sexp) : option op :=
+(* an element convenience method (entity.wasGeneratedBy(...)) is one call of a factory of the element's own
+   bundle with the element as first argument: rewritten into that Factory call with the generated table *)
+Definition desugar_elem_method (x : sexp) : sexp :=
+  match x with
+  | L [A "ElemMethod"; L [A "r"; c; i]; A meth; L args; other] =>
+      match find (fun e => String.eqb (snd (fst (fst (fst (fst e))))) meth) element_methods with
+      | Some (_, _, fac, selfp, pairs, has_attrs) =>
+          let ren (a : sexp) : sexp :=
+            match a with
+            | L [A mp; v] => match lookup mp pairs with Some fp => L [A fp; v] | None => L [A ("?" ++ mp); v] end
+            | y => y
+            end in
+          L [A "Factory"; c; A fac; A "none";
+             L (L [A selfp; L [A "rec"; L [A "r"; c; i]]] :: map ren args);
+             if has_attrs then other else L []]
+      | None => x
+      end
+  | _ => x
+  end.
+
+Definition px_op_core (x : sexp) : option op :=
   match x with
   | L [A "NewDoc"] => Some ONewDoc
   | L [A "AddNs"; c; A p; A u] => option_map (fun c' => OAddNs c' p u) (px_cref c)
@@ -538,6 +558,8 @@ Definition px_op (x : sexp) : option op :=
   end.
 
 (* float oracle table: ((lex (r iv g)) | (lex none)) ... *)
+Definition px_op (x : sexp) : option op := px_op_core (desugar_elem_method x).
+
 Definition px_fentry (x : sexp) : option (string * option (string * option Z * string)) :=
   match x with
   | L [A lex; A "none"] => Some (lex, None)
